@@ -278,8 +278,6 @@ Section WithOracle.
     end.
 End WithOracle.
 
-(* ------------------------------------------------------------------ the documented registry *)
-Definition s_ (l : list Z) : str := l.
 (* oracle used by the correspondence run: ratio results are masked (VNone on both sides); only
    the refusals of _conforming_weighted_average that do not depend on numerics are modelled *)
 Definition wavg_mask (tr : transform) (vals weights : list value) : result value :=
@@ -383,3 +381,53 @@ Section Spec.
              && values_ok prem' g (cvals o)) out
     end.
 End Spec.
+
+(* ------------------------------------------------------------------ the documented registry
+   (property C09: losses, premiums, exposures, claim counts, *_loss_developed, *_loss_prior are
+   summed under THEIR OWN key; ratio fields are the documented weighted averages; NON_LOSS_METRICS
+   are the premium/exposure-type fields).  [table_ok] is the Boolean side condition that the
+   generated table must satisfy (GenProps/C09_rules.v discharges it by vm_compute). *)
+Definition additive_fields : list str := [
+  (* paid_loss *) [112;97;105;100;95;108;111;115;115];
+  (* reported_loss *) [114;101;112;111;114;116;101;100;95;108;111;115;115];
+  (* incurred_loss *) [105;110;99;117;114;114;101;100;95;108;111;115;115];
+  (* reported_claims *) [114;101;112;111;114;116;101;100;95;99;108;97;105;109;115];
+  (* open_claims *) [111;112;101;110;95;99;108;97;105;109;115];
+  (* closed_claims *) [99;108;111;115;101;100;95;99;108;97;105;109;115];
+  (* closed_with_pay_claims *) [99;108;111;115;101;100;95;119;105;116;104;95;112;97;121;95;99;108;97;105;109;115];
+  (* reported_count *) [114;101;112;111;114;116;101;100;95;99;111;117;110;116];
+  (* open_count *) [111;112;101;110;95;99;111;117;110;116];
+  (* closed_count *) [99;108;111;115;101;100;95;99;111;117;110;116];
+  (* closed_with_pay_count *) [99;108;111;115;101;100;95;119;105;116;104;95;112;97;121;95;99;111;117;110;116];
+  (* earned_premium *) [101;97;114;110;101;100;95;112;114;101;109;105;117;109];
+  (* used_earned_premium *) [117;115;101;100;95;101;97;114;110;101;100;95;112;114;101;109;105;117;109];
+  (* earned_exposure *) [101;97;114;110;101;100;95;101;120;112;111;115;117;114;101];
+  (* written_premium *) [119;114;105;116;116;101;110;95;112;114;101;109;105;117;109];
+  (* written_exposure *) [119;114;105;116;116;101;110;95;101;120;112;111;115;117;114;101];
+  (* incurred_loss_developed *) [105;110;99;117;114;114;101;100;95;108;111;115;115;95;100;101;118;101;108;111;112;101;100];
+  (* paid_loss_developed *) [112;97;105;100;95;108;111;115;115;95;100;101;118;101;108;111;112;101;100];
+  (* reported_loss_developed *) [114;101;112;111;114;116;101;100;95;108;111;115;115;95;100;101;118;101;108;111;112;101;100];
+  (* incurred_loss_prior *) [105;110;99;117;114;114;101;100;95;108;111;115;115;95;112;114;105;111;114];
+  (* paid_loss_prior *) [112;97;105;100;95;108;111;115;115;95;112;114;105;111;114];
+  (* reported_loss_prior *) [114;101;112;111;114;116;101;100;95;108;111;115;115;95;112;114;105;111;114]].
+Definition ratio_fields : list (str * rule) := [
+  (* implied_atu by reported_loss *) ([105;109;112;108;105;101;100;95;97;116;117], RWAvg [105;109;112;108;105;101;100;95;97;116;117] [114;101;112;111;114;116;101;100;95;108;111;115;115] TId);
+  (* bf_weight by reported_loss *) ([98;102;95;119;101;105;103;104;116], RWAvg [98;102;95;119;101;105;103;104;116] [114;101;112;111;114;116;101;100;95;108;111;115;115] TId);
+  (* geometric_weight by reported_loss *) ([103;101;111;109;101;116;114;105;99;95;119;101;105;103;104;116], RWAvg [103;101;111;109;101;116;114;105;99;95;119;101;105;103;104;116] [114;101;112;111;114;116;101;100;95;108;111;115;115] TId);
+  (* log_industry_lr by earned_premium *) ([108;111;103;95;105;110;100;117;115;116;114;121;95;108;114], RWAvg [108;111;103;95;105;110;100;117;115;116;114;121;95;108;114] [101;97;114;110;101;100;95;112;114;101;109;105;117;109] TExpLog)].
+Definition documented_non_loss : list str := [
+  (* earned_premium *) [101;97;114;110;101;100;95;112;114;101;109;105;117;109];
+  (* used_earned_premium *) [117;115;101;100;95;101;97;114;110;101;100;95;112;114;101;109;105;117;109];
+  (* earned_exposure *) [101;97;114;110;101;100;95;101;120;112;111;115;117;114;101];
+  (* written_premium *) [119;114;105;116;116;101;110;95;112;114;101;109;105;117;109];
+  (* written_exposure *) [119;114;105;116;116;101;110;95;101;120;112;111;115;117;114;101];
+  (* implied_atu *) [105;109;112;108;105;101;100;95;97;116;117];
+  (* bf_weight *) [98;102;95;119;101;105;103;104;116];
+  (* geometric_weight *) [103;101;111;109;101;116;114;105;99;95;119;101;105;103;104;116]].
+Definition rule_is (rules : rule_table) (k : str) (r : rule) : bool :=
+  match assoc k rules with Some r' => rule_eqb r' r | None => false end.
+Definition table_ok (rules : rule_table) (nl : list str) : bool :=
+  forallb (fun k => rule_is rules k (RSum k)) additive_fields
+  && forallb (fun kr => rule_is rules (fst kr) (snd kr)) ratio_fields
+  && forallb (fun k => mem_str k documented_non_loss) nl
+  && forallb (fun k => mem_str k nl) documented_non_loss.
